@@ -156,6 +156,42 @@ Example C07_retry_repaired_on_witness :
   xreport (xs_st s) 1 = spec_report p0 (key_owner (xs_st s)) (xs_node s) 1.
 Proof. vm_compute. split; reflexivity. Qed.
 
+(* ------------------------------------------------------------------ rescan + reorg: block-record order *)
+
+(* Wallet 1 is ready.  Block 2 holds transaction 3 (pays script hash 2, nobody's yet) and transaction 4
+   (spends 3's output, pays wallet 1): only 4 is recorded.  Wallet 2 (owner of script hash 2) is then
+   restored: the rescan appends 3 to block 2's record AFTER 4 and marks 3's output spent by 4.  Block 2
+   is reorganised away: Rollback walks the record backwards, deletes 3's credit first and fails on 4's
+   debit — the announcement is refused, and so is every later one: the wallet no longer follows the chain. *)
+Definition hist_order : list xevent :=
+  let b1 := {| b_id := 1; b_prev := 0; b_height := 1; b_txs := [cb 1 [pay 9 100]] |} in
+  let b2 := {| b_id := 2; b_prev := 1; b_height := 2;
+               b_txs := [cb 2 []; {| t_id := 3; t_cb := false; t_ins := [(1, 0)%N]; t_outs := [pay 2 100] |};
+                         {| t_id := 4; t_cb := false; t_ins := [(3, 0)%N]; t_outs := [pay 1 100] |}] |} in
+  let b2' := {| b_id := 3; b_prev := 1; b_height := 2; b_txs := [cb 5 []] |} in
+  let b3' := {| b_id := 4; b_prev := 3; b_height := 3; b_txs := [cb 6 []] |} in
+  [XNewWallet 1 11; XNewAddr 1 1; XAttach b1; XProcess b1; XAttach b2; XProcess b2;
+   XImportStart 2 22 [2%N]; XBatch 2;
+   XDetach; XAttach b2'; XAttach b3'; XProcess b3'].
+
+Theorem C07_rescan_then_reorg_refused_refuted :
+  let s := xrun {| f_removable := true; f_rollback := true; f_import_retry := true; f_start_reorg := true;
+                   f_rollback_order := false |} p0 1000 20000 [g0] hist_order in
+  status_of (xs_st s) 2 = Some WReady /\
+  x_brecs (xs_st s) = [{| br_h := 2; br_bid := 2; br_txs := [4; 3]%N |}] /\
+  fst (tip (x_w (xs_st s))) = 2 /\ chain_height (xs_node s) = 3 /\
+  r_total (xreport (xs_st s) 1) = 100 /\
+  r_total (spec_report p0 (key_owner (xs_st s)) (xs_node s) 1) = 0.
+Proof. vm_compute. repeat split; reflexivity. Qed.
+Print Assumptions C07_rescan_then_reorg_refused_refuted.
+
+Example C07_rescan_then_reorg_repaired_on_witness :
+  let s := xrun repaired p0 1000 20000 [g0] hist_order in
+  fst (tip (x_w (xs_st s))) = 3 /\
+  xreport (xs_st s) 1 = spec_report p0 (key_owner (xs_st s)) (xs_node s) 1 /\
+  xreport (xs_st s) 2 = spec_report p0 (key_owner (xs_st s)) (xs_node s) 2.
+Proof. vm_compute. repeat split; reflexivity. Qed.
+
 (* the hypotheses of T1 are met by a non-trivial reachable state: the old chain, batch size 2 *)
 Example C07_T1_instance :
   let s := xrun repaired p0 2 20000 old_chain [XImportStart 1 7 [1%N]; XBatch 1; XBatch 1] in
